@@ -68,7 +68,8 @@ def run(client_steps: dict[int, list], exec_fn, ready_fn, on_entry, dec: Decisio
     """Run all clients to completion under `dec`.
 
     exec_fn(step, ctx) -> result      executed in the client's thread while it holds the baton
-    ready_fn(step, finished) -> bool  may this step start now (data dependencies)?
+    ready_fn(step, any_midstep) -> bool  may this step start now (data dependencies; environment steps such as
+                                      cache eviction only start at quiescent points, i.e. when no client is mid-step)
     on_entry(finished_now: list[(step, result)], inflight: list[(Client)], current: Client) -> violation | None
                                       executed by the scheduler every time the baton comes back
     Returns the first violation (or None). Raises RuntimeError on harness problems.
@@ -140,7 +141,8 @@ def run(client_steps: dict[int, list], exec_fn, ready_fn, on_entry, dec: Decisio
             live = [cl for cl in clients.values() if not cl.done]
             if not live:
                 break
-            runnable = [cl.cid for cl in live if cl.midstep or ready_fn(cl.steps[cl.pos], finished)]
+            any_mid = any(cl.midstep for cl in live)
+            runnable = [cl.cid for cl in live if cl.midstep or ready_fn(cl.steps[cl.pos], any_mid)]
             if not runnable:
                 runnable = [live[0].cid]  # producers failed: exec_fn skips steps with void operands
             c, q = dec.next(sorted(runnable))
